@@ -87,7 +87,7 @@ Definition cmp_direct (t c : N) (op : cmpop) (v : val) : res (list item) :=
   | _ => DomErr
   end.
 
-Fixpoint truthy (v : val) : bool :=
+Definition truthy (v : val) : bool :=
   match v with
   | VNone => false
   | VInt z => negb (Z.eqb z 0)
